@@ -588,9 +588,11 @@ class ExcelCompiler:
             if cell and getattr(cell, 'formula', None):
                 self.log.info(f"{addr} is not a leaf node")
 
-        # 5) remove unneeded cells
+        # 5) remove unneeded cells, that is those not needed for an output
+        processed_cells.update(addr.address for addr in output_addrs)
         cells_to_remove = tuple(addr for addr in self.cell_map
-                                if addr not in needed_cells)
+                                if addr not in needed_cells or
+                                addr not in processed_cells)
         for addr in cells_to_remove:
             del self.cell_map[addr]
 
